@@ -10,7 +10,8 @@ from drive import Result
 
 RULE = ("Hypothesis generates models (N<=4 quick, <=5 thorough) with beta in [0.5,200] (most blocks negligible when cold) and a "
         "truncation tolerance eps: 0, or log-uniform in [1e-15,1e-2]; the same scenario is run without and with truncateBlocks(eps) "
-        "(applied before operators/GFs are prepared).  Checked: a block reported as not retained has no weight above eps; with eps=0 every "
+        "(applied before operators/GFs are prepared; in half of the cases preceded by 1-2 earlier truncations of the same density matrix "
+        "with other tolerances, after which only the last tolerance may matter).  Checked: a block reported as not retained has no weight above eps; with eps=0 every "
         "observable is unchanged (1e-14 relative); otherwise |dG| <= 2 eps dim/|Im z| + drop bound, |d<c+c>| <= eps dim, "
         "|d chi_AB(W)| <= eps dim max(beta, 2/|W|) + drop bound, |d chi_ijkl| <= eps beta^3/6 * sum_chains|M| + C02 tolerance.  Non-trivial: "
         "at least one block discarded and one retained, and for some compared quantity the bound is below 10% of the untruncated value.")
@@ -20,19 +21,23 @@ CONFIG = {
     "quick": {"flavours": ["real", "complex"], "shards": 8, "examples": 100, "min_nontrivial": 40, "budget_s": 110},
     "thorough": {"flavours": ["real", "complex"], "shards": 16, "examples": 1200, "min_nontrivial": 800, "budget_s": 3300},
 }
-REQUIRED_CLASSES = {"quick": ["eps=0", "some-discarded", "all-retained", "tight-bound"], "thorough": ["eps=0", "some-discarded", "all-retained", "tight-bound", "all-discarded-stripe"]}
+REQUIRED_CLASSES = {"quick": ["eps=0", "some-discarded", "all-retained", "tight-bound", "retruncated-with-smaller-eps"],
+                    "thorough": ["eps=0", "some-discarded", "all-retained", "tight-bound", "retruncated-with-smaller-eps"]}
 
 
 @st.composite
 def strategy_(draw, tier):
     mdl = draw(gen.any_model_st(max_modes=4 if tier == "quick" else 5, beta_lo=0.5, beta_hi=200.0, symm_modes=("default", "default", "custom")))
-    eps = draw(st.one_of(st.just(0.0), st.floats(math.log(1e-15), math.log(1e-2)).map(math.exp), st.floats(math.log(1e-15), math.log(1e-2)).map(math.exp)))
+    one_eps = st.one_of(st.just(0.0), st.floats(math.log(1e-15), math.log(1e-2)).map(math.exp), st.floats(math.log(1e-15), math.log(1e-2)).map(math.exp))
+    eps = draw(one_eps)
+    # earlier truncations of the same density matrix (any order of tolerances): only the last one counts
+    earlier = draw(st.lists(st.one_of(one_eps, st.sampled_from([1e-2, 0.3, 1.0])), min_size=0, max_size=2))
     N = M.n_modes(mdl["sites"])
     ix = st.integers(0, N - 1)
     comps = draw(st.lists(st.tuples(ix, ix, ix, ix), min_size=1, max_size=2, unique=True))
     triples = draw(st.lists(gen.triple_st(-3, 3), min_size=1, max_size=2, unique_by=tuple))
     susc = draw(st.lists(st.tuples(ix, ix, ix, ix), min_size=1, max_size=2, unique=True))
-    return {"model": mdl, "eps": eps, "comps": [list(c) for c in comps], "triples": triples, "susc": [list(c) for c in susc]}
+    return {"model": mdl, "eps": eps, "earlier": earlier, "comps": [list(c) for c in comps], "triples": triples, "susc": [list(c) for c in susc]}
 
 
 def strategy(tier):
@@ -46,6 +51,8 @@ WS = (0, 1, -2)
 def queries(case, N, eps):
     q = []
     if eps is not None:
+        for k, e in enumerate(case.get("earlier", [])):
+            q.append((("trunc0", k), "truncate %r" % e))
         q.append(("trunc", "truncate %r" % eps))
     q += [("weights", "weights"), ("ops", "ops 0")]
     for i in range(N):
@@ -96,6 +103,10 @@ def execute(case, ctx):
         return fail("a block is reported as not retained without any truncation", "retained-default")
     ndisc = sum(1 for r in ret if not r)
     classes.append("eps=0" if eps == 0 else "eps>0")
+    if any(e > eps for e in case.get("earlier", [])):
+        classes.append("retruncated-with-smaller-eps")
+    elif case.get("earlier"):
+        classes.append("retruncated")
     classes.append("all-retained" if ndisc == 0 else ("some-discarded" if ndisc < len(ret) else "all-discarded"))
     tight = False
     zero = (eps == 0.0)
